@@ -2830,6 +2830,30 @@ class Normaliser:
                              orelse=self.elim(list(st.orelse) + clone(rest), res))
                 out.append(new)
                 return out
+            if isinstance(st, (ast.While, ast.For)) and not st.orelse:
+                # a `return` at the loop's own level is a `break` when nothing but a plain return follows the loop
+                rest = stmts[i + 1:]
+                tail_ok = all(isinstance(r, ast.Return) and (res is None or r.value is None or (isinstance(r.value, ast.Constant) and r.value.value is None))
+                              for r in rest)
+                if tail_ok:
+                    def to_break(body):
+                        nb = []
+                        for b in body:
+                            if isinstance(b, ast.Return):
+                                if res is not None:
+                                    nb.append(ast.Assign(targets=[ast.Name(id=res, ctx=ast.Store())], value=b.value if b.value is not None else ast.Constant(value=None)))
+                                nb.append(ast.Break())
+                                return nb
+                            if isinstance(b, ast.If):
+                                b = ast.If(test=b.test, body=to_break(b.body) or [ast.Pass()], orelse=to_break(b.orelse))
+                            elif any(isinstance(x, ast.Return) for x in walk_local(b)):
+                                raise _NoInline("return inside a nested loop / try / with")
+                            nb.append(b)
+                        return nb
+                    loop = clone(st)
+                    loop.body = to_break(loop.body)
+                    out.append(loop)
+                    return out
             raise _NoInline("return inside a loop / try / with")
         return out
 
